@@ -3,7 +3,7 @@
 import json, os, subprocess, sys
 HERE = os.path.dirname(os.path.abspath(__file__))
 sys.path.insert(0, HERE)
-from checks import CHECKS, NOT_APPLICABLE, HOOK_COMMITS
+from checks import CHECKS, NOT_APPLICABLE, HOOK_COMMITS, CLAIMED
 ids = [json.loads(l)["id"] for l in open(os.path.join(HERE, "properties.jsonl"))]
 m = {
     "version": 1,
@@ -19,7 +19,7 @@ m = {
         "source_commits": HOOK_COMMITS,
         "add_only": True,
     },
-    "engines": [{"name": "vcheck", "path": "vcheck", "serves_properties": sorted(CHECKS),
+    "engines": [{"name": "vcheck", "path": "vcheck", "serves_properties": sorted(CLAIMED),
                  "kind_free_text": "python driver: content-addressed sanitizer builds of /repo, sharded monitor "
                                    "programs (harness/cNN_*.cpp), crash restart, known-finding matching, evidence"}],
     "checks": [],
@@ -28,7 +28,7 @@ m = {
              "/repo's working tree); see DESIGN.md.  KNOWN_FINDINGS.txt lists open findings and repaired defects.",
 }
 for pid in ids:
-    if pid in CHECKS and CHECKS[pid].get("claimed", True):
+    if pid in CHECKS and pid in CLAIMED:
         c = CHECKS[pid]
         m["checks"].append({
             "property_id": pid,
